@@ -4,6 +4,7 @@ import SSEPyVerif.Driver.PersistD
 import SSEPyVerif.Driver.ServerD
 import SSEPyVerif.Driver.ClientD
 import SSEPyVerif.Driver.ManagerD
+import SSEPyVerif.Driver.SchemeD
 
 open SSEPy SSEPy.Driver
 
@@ -13,6 +14,8 @@ structure DState where
   pdict : Option PDict.PDict := none
   srv : ServerIR.SrvD := {}
   mgr : MgrD := {}
+  cw : ClientIR.World := {}
+  sch : SchD := {}
 
 def dispatch (st : DState) (line : String) : DState × String :=
   match (line.trimAscii.toString.splitOn " ") with
@@ -25,9 +28,11 @@ def dispatch (st : DState) (line : String) : DState × String :=
   | "ffx" :: rest => (st, ffxReq st.tables rest)
   | "lr" :: rest => (st, lrReq st.tables rest)
   | "pdict" :: rest => let (p, r) := pdictReq st.pdict rest; ({ st with pdict := p }, r)
-  | "cli" :: rest => (st, cliReq rest)
+  | "cli" :: "fsops" :: rest => (st, cliReq ("fsops" :: rest))
+  | "cli" :: rest => let (w, r) := cliStateReq st.cw rest; ({ st with cw := w }, r)
   | "mgr" :: rest => let (p, r) := mgrReq st.mgr rest; ({ st with mgr := p }, r)
   | "srv" :: rest => let (p, r) := srvReq st.srv rest; ({ st with srv := p }, r)
+  | "sch" :: rest => let (p, r) := schReq st.tables st.sch rest; ({ st with sch := p }, r)
   | "parr" :: rest => let (p, r) := parrReq st.parr rest; ({ st with parr := p }, r)
   | _ => (st, Proto.bad)
 
